@@ -16,6 +16,7 @@ package gnmi
 
 // Ghost view of the device side of a southbound Set.
 //@ ghost deviceSetCalls int
+//@ ghost deviceSetFailures int
 //@ ghost deviceCode int
 //@ ghost lastSetElectionLow int
 //@ ghost lastSetElectionHigh int
@@ -35,8 +36,9 @@ package gnmi
 //@ iface Client.Set(ctx, r) (resp, err)
 //@   probe deviceCode: deviceCode
 //@   requires r != nil
-//@   modifies deviceSetCalls, deviceCode, lastSetElectionLow, lastSetElectionHigh, lastSetHasArbitration, lastSetConn, lastSetRequest
+//@   modifies deviceSetFailures, deviceSetCalls, deviceCode, lastSetElectionLow, lastSetElectionHigh, lastSetHasArbitration, lastSetConn, lastSetRequest
 //@   ensures deviceSetCalls == old(deviceSetCalls) + 1
+//@   ensures deviceSetFailures == old(deviceSetFailures) + ite(err == nil, 0, 1)
 //@   ensures lastSetRequest == r
 //@   ensures lastSetHasArbitration == hasArbitration(r)
 //@   ensures hasArbitration(r) ==> lastSetElectionLow == electionLow(r) && lastSetElectionHigh == electionHigh(r)
